@@ -83,6 +83,19 @@ def stmt_failure(pattern, frame, peaks, upsample):
         a, b = res[(method, False)], res[(method, upsample)]
         if not (np.array_equal(a[0], b[0]) and np.array_equal(a[2], b[2]) and np.array_equal(a[3], b[3])):
             return 'process_frame_%s: enabling upsampling=%s changed centres/heights/elevations' % (method, upsample)
+    # the alternative (slicing) crop back-end: completes without error for the same peaks and gives the same outputs
+    from libertem_blobfinder.base.correlation import crop_disks_from_frame_slicing
+    for method, run in (('fast', cl.run_fast), ('full', cl.run_full)):
+        try:
+            o = run(pattern, g, peaks, bc=max(1, len(peaks) // 2), upsample=False, crop_function=crop_disks_from_frame_slicing)
+        except Exception as e:  # noqa
+            return 'process_frame_%s(crop_function=crop_disks_from_frame_slicing) raised %s: %s' % (method, type(e).__name__, e)
+        f = well_formed(o, peaks, c, False, 'process_frame_%s(slicing crop)' % method)
+        if f:
+            return f
+        a = res[(method, False)]
+        if not all(np.array_equal(x, y, equal_nan=True) for x, y in zip(a, o)):
+            return 'process_frame_%s: the slicing crop back-end changes the outputs' % method
     # high-level entry points
     for name, fn in (('process_frames_fast', cc.process_frames_fast), ('process_frames_full', cc.process_frames_full)):
         for ups in (False, upsample):
@@ -119,7 +132,7 @@ def replay(body):
 def run(ctx):
     rng = ctx.rng
     ctx.check_theorems()
-    ctx.check_generated(['eval'])
+    ctx.check_generated(['eval', 'qpat', 'qus', 'k'])
 
     # (K1) integer output buffers: Eval.store_int vs numpy for the dtypes the batch helpers return
     pattern, desc = cl.rand_pattern(rng, cmax=3, kinds=['RadialGradient'])
@@ -203,5 +216,5 @@ def run(ctx):
                     'weights), positive denominator at the first maximum (no 0/0), in-bounds reads, elevation finite for maps >= 4x4, upsampled grid bound '
                     '0.75+0.5/u. Tie: store_int vs numpy for the dtypes the batch helpers actually return, upsampled region size spied from the running '
                     'code, pipeline model vs outputs; oracle: the statement on NaN-guarded frames of 7 data kinds, |values| <= 1e6.',
-        rule='(S) random patterns (5 classes, crop size 2..7), shapes 2..47, 1..7 peaks in [-2c, shape+2c], upsample in {True,2..50}, low-level and high-level '
+        rule='(S) random patterns (5 classes, crop size 2..7), shapes 2..47, 1..7 peaks in [-2c, shape+2c], upsample in {True,2..50}, low-level (both crop back-ends) and high-level '
              'entry points, upsampling on/off compared; distinct by (pattern, shape, peaks, upsample, data kind).')
